@@ -1,5 +1,7 @@
 import BSModel.Driver.Util
 import BSModel.Model.Pretty
+import BSModel.Model.PrettyReparse
+import BSModel.Driver.TK
 /-! line protocol of C14 (pretty-printing)
 
     c14 dec  <unit> <sets> <nq> <query>*nq <tree>    code-mirror `decodeImpl` on `receiverStream`; answers joined by " | "
@@ -8,6 +10,10 @@ import BSModel.Model.Pretty
     c14 indent <arg>                                  `Formatter.__init__`'s normalisation of `indent`
     c14 strip <cps>
     c14 spp <set|N> <name>                            `_should_pretty_print()`
+    c14 reparse <void> <dup> <lines> <pre> <cont> <table> <text>
+                                                      parse of a text through the tokenizer MODEL (`Tokenizer.run`, `feed; close`) +
+                                                      `adapterBuild`: `<flag>|<tree as c04 adapt prints it>|<eraseWsL of the tree>`;
+                                                      configuration tokens as for `c04 adapt`, table as for `tk tokens`
 
     unit   := cps | -
     sets   := - | set;set;…        set := e | name/name/…      name := cps
@@ -222,7 +228,33 @@ def parseIndentArg (s : String) : Option IndentArg :=
   else if s.startsWith "s" then some (.str (cps (s.drop 1).toString))
   else none
 
+/-- a tree without start infos: `<name>[…]`, text `"cls:cps"` -/
+partial def showPlain : List BS.Builder.Doc → String
+  | [] => ""
+  | .text c s :: ds => s!"\"{c}:{showL s}\"" ++ showPlain ds
+  | .elem n _ ks :: ds => s!"<{showL n}>[{showPlain ks}]" ++ showPlain ds
+
+/-- text → tokenizer model → bs4's handlers → construction machine; the tree and its `eraseWsL` -/
+def handleReparse (void dup lines pre cont tab text : String) : String :=
+  let bcfg0 := C03.mkCfg pre cont
+  let bcfg := { bcfg0 with asciiSpaces := BS.Gen.asciiSpaces, rootName := BS.Gen.rootTagName }
+  let t := TK.parseTab tab
+  let r := BS.Tokenizer.run (TK.params t) (cps text)
+  let voidS := (void.drop 5).toString
+  let voids := (splitNE "." voidS).map ofS
+  let cfg : BS.Adapter.ACfg :=
+    { isVoid := fun n => voidS == "*" || voids.contains n,
+      dup := if dup == "dup=ignore" then .ignore else if dup == "dup=acc" then .accumulate else .replace,
+      storeLines := lines == "lines=1",
+      entity := fun n => (TK.look t.e n).join,
+      cp1252 := fun n => (BS.Gen.cp1252Table.find? (fun e => e.1 == n)).map (·.2),
+      origDecode := fun _ => none,
+      maxDigits := BS.Gen.intMaxStrDigitsC04 }
+  let b := BS.Adapter.adapterBuild bcfg cfg (BS.Tokenizer.callbacks r)
+  s!"{TK.showFlag r.flag}|{(C04.showDocs b.1 b.2).1}|{showPlain (BS.PrettyReparse.eraseWsL bcfg b.1)}"
+
 def handle : List String → String
+  | ["reparse", void, dup, lines, pre, cont, tab, text] => handleReparse void dup lines pre cont tab text
   | "dec" :: unit :: sets :: nq :: rest => runQueries "dec" unit sets nq rest
   | "spec" :: unit :: sets :: nq :: rest => runQueries "spec" unit sets nq rest
   | "ev" :: unit :: sets :: nq :: rest => runQueries "ev" unit sets nq rest
